@@ -37,7 +37,10 @@ RULE_ADDED = (
               ' '
               'Round 9: half of the SGX onboardings have a second operator who gets the device '
               'if the host is free while the first is at a prompt; a third of the command-line '
-              'cells carry -v. ')
+              'cells carry -v. '
+              ' '
+              'Round 10: half of the Ledger onboardings find something else after the re-connec'
+              'tion (blank device, signer, heartbeat app, wrong echo): no PIN goes to it. ')
 RULE = RULE + " " + RULE_ADDED.strip()
 ASSUMPTIONS = [
     "simulated devices (pv/simdev) trusted; operator input is scripted, an exhausted script "
@@ -274,6 +277,27 @@ def run_cell(acc, cell, tmpdir, seed):
                     second["served"] = True
                     dev.onboarded = True
             ae.on_prompt = second_operator
+        swap = {"at": None, "what": None}
+        if plat == "ledger" and cmd == "onboard" and zlib.crc32(repr(cell).encode()) % 2 == 1:
+            # Ledger onboarding goes on after "disconnect and re-connect the ledger, press
+            # Enter".  What is found after the re-connection need not be the device that
+            # was just onboarded in the state it was left in: another (blank) device, the
+            # device already in the signer or the heartbeat app, one that echoes wrongly.
+            # A PIN goes to what is found only under the conditions for sending PINs.
+            def reconnect_finds_something_else():
+                if swap["at"] is None and any(e and e[0] == "wipe" for e in dev.log):
+                    swap["what"] = rng.choice(["not-onboarded", "in-signer", "in-heartbeat",
+                                               "wrong-echo"])
+                    if swap["what"] == "not-onboarded":
+                        dev.onboarded = False
+                    elif swap["what"] == "in-signer":
+                        dev.mode = MODE_SIGNER
+                    elif swap["what"] == "in-heartbeat":
+                        dev.mode = MODE_UI_HEARTBEAT
+                    else:
+                        dev.cfg["echo_ok"] = "last"
+                    swap["at"] = len(apdu_cmds(ae.bus))
+            ae.on_prompt = reconnect_finds_something_else
         # every third cell goes through the tool's own command line (argument parser,
         # defaults, dispatch, exit codes) instead of calling the operation directly
         via_cli = (zlib.crc32(repr(cell).encode()) % 3 == 0) and \
@@ -304,6 +328,10 @@ def run_cell(acc, cell, tmpdir, seed):
             seqs.append((None, bytes(buf[i] for i in sorted(buf))))
         return seqs
 
+    if swap["at"] is not None:
+        acc.count("ledger_onboardings_finding_something_else_after_reconnection")
+        if any(a[1] in (0x41, 0xFE) for a in cmds[swap["at"]:]):
+            return bad("pin-sent-to-what-was-found-after-reconnection:%s" % swap["what"])
     if second["tried"]:
         acc.count("onboardings_with_a_second_operator_at_the_prompts")
     if second["served"] and any(c in DESTRUCTIVE for c in codes):
@@ -362,6 +390,8 @@ def run_cell(acc, cell, tmpdir, seed):
             if plat == "sgx" and not ok and chosen != "":
                 # (the enclave itself refuses an empty password)
                 return bad("sgx-onboarding-failed-although-preconditions-hold")
+            if swap["at"] is not None:
+                return       # (the attestation set-up cannot go on with what was found)
             if plat == "ledger":
                 if not ok:
                     return bad("ledger-onboarding-failed-although-preconditions-hold")
@@ -461,7 +491,10 @@ run_cell.seeds = set()
 
 def run_shard(spec, acc):
     env.setup()
-    tmpdir = env.mkdtemp("c18", spec.get("shard", spec.get("seed", 0)) % 2 == 1)
+    if spec.get("shard", spec.get("seed", 0)) % 4 >= 2 and env.on_other_fs():
+        acc.count("shards_with_files_on_another_file_system_than_the_temp_directory")
+    tmpdir = env.mkdtemp("c18", spec.get("shard", spec.get("seed", 0)) % 2 == 1,
+                         other_fs=spec.get("shard", spec.get("seed", 0)) % 4 >= 2)
     rng = random.Random(spec["seed"] * 31337 + spec["shard"])
     try:
         for cell in cells(spec):
